@@ -14,7 +14,9 @@ import VotelibProofs.Lemmas.C12Score
 import VotelibProofs.Lemmas.C12Star
 import VotelibProofs.Lemmas.C12Trunc
 import VotelibProofs.Lemmas.C12Alloc
+import VotelibProofs.Lemmas.C12AllocSpec
 import VotelibProofs.Lemmas.C12MJ
+import VotelibProofs.Lemmas.C12MJSpec
 import VotelibModel.Gen.Quota
 namespace VL.C12
 open VL VL.Appr VL.Score VL.C09
@@ -537,6 +539,37 @@ theorem mj_elects_highest_medians (tb : TieBreaking) (cfg : Cfg) (votes : SProfi
             injection hok with hok; subst hok
             exact final broken (fun s hs => SlotIn.mono htiedkeys (tiebreakPlus_slotIn _ _ _ hb s hs))
 
+/-- **The default tie-break equals the documented rule.**  `_tiebreak_default` removes `_closest_median_change` median
+    grades from every tied candidate per step; the documented (Balinski-Laraki) rule removes ONE median grade per step
+    until the medians separate a group of winners (`tiebreakOneByOne`).  On every table of grade dicts with distinct
+    candidates, distinct grades and non-negative counts (`TableWF`, decidable; true of everything `corrected_scores`
+    builds) the two agree: whatever the code returns — a selection, `VotingSystemError('cannot determine clear cutoff')`,
+    or the `StatisticsError` crash — the one-at-a-time rule returns as well.  (The hypothesis `x ≠ Fuel` only excludes
+    the model's own fuel bound, which the correspondence never reaches.)  The batching is therefore sound on ALL inputs,
+    in particular for tied candidates holding equally many grades, where the rule is well defined; for unequal numbers
+    of grades it is the rule itself that breaks down (witnesses below). -/
+theorem mj_default_eq_spec (fuel : Nat) (scores : ScoreTable) (n : Nat) (x : Except Err (List Slot))
+    (hwf : TableWF scores) (h : tiebreakDefault fuel scores n = x) (hx : x ≠ .error (.other "Fuel")) :
+    ∃ fuel', tiebreakOneByOne fuel' scores n = x :=
+  default_eq_oneByOne fuel scores n x hwf h hx
+
+/-- the arithmetic core: fewer removals than `_closest_median_change` never move a median (and the grades suffice) -/
+theorem mj_median_stable_below_closest_change (cs : CScores) (hnd : (ckeys cs).Nodup) (hpos : ∀ p ∈ cs, 0 ≤ p.2)
+    (m : Rat) (hm : aggregateOne .medianLow cs = .ok m) (j : Int) (hj0 : 0 ≤ j)
+    (hja : j < ceilAbs (((countGe cs m : Int) : Rat) - ((totalCount cs : Int) : Rat) / 2))
+    (hjb : j < ceilAbs (((countGt cs m : Int) : Rat) - ((totalCount cs : Int) : Rat) / 2)) :
+    j < getCount cs m ∧ aggregateOne .medianLow (setCount cs m (getCount cs m - j)) = .ok m :=
+  median_stable hnd hpos hm j hj0 hja hjb
+
+/-- non-vacuity: equally many grades, the batch removes two median grades at once and agrees with the one-by-one rule;
+    with unequal numbers of grades the one-by-one rule itself ends in the crash (it is not a batching artefact) -/
+example : TableWF [(0, [(3, 4), (1, 1)]), (1, [(3, 4), (5, 1)])] := by decide +kernel
+example : tiebreakDefault 20 [(0, [(3, 4), (1, 1)]), (1, [(3, 4), (5, 1)])] 1 = .ok [Slot.cand 1] ∧
+    tiebreakOneByOne 20 [(0, [(3, 4), (1, 1)]), (1, [(3, 4), (5, 1)])] 1 = .ok [Slot.cand 1] := by decide +kernel
+example : tiebreakOneByOne 20 [(1, [(1, 2)]), (3, [(1, 2), (2, 1)])] 1 = .error (.other "StatisticsError") ∧
+    tiebreakDefault 20 [(1, [(1, 2)]), (3, [(1, 2), (2, 1)])] 1 = .error (.other "StatisticsError") := by
+  decide +kernel
+
 /-! ### STAR -/
 
 /-- plain settings: no unscored value, no minimum count, no truncation -/
@@ -697,6 +730,52 @@ example : WFW [([(0, 5), (1, 2), (2, 1)], 2), ([(0, 1), (1, 3), (2, 0)], 2)] := 
   intro bw hbw
   simp at hbw
   rcases hbw with rfl | rfl <;> norm_num
+
+/-- a score profile as the library receives it: distinct ballots, positive counts, every ballot grades a candidate
+    at most once -/
+def ScoreProfileWF (votes : SProfile) : Prop :=
+  (votes.map (·.1)).Nodup ∧ (∀ bn ∈ votes, 0 < bn.2) ∧ ∀ bn ∈ votes, (bn.1.map (·.1)).Nodup
+
+/-- **Allocated score equals its round-by-round definition** on the whole domain where the definition is defined —
+    `allocSpec … = some ws` is the decidable hypothesis "every round has a strict winner and no ballot runs out"
+    (outside it the code enters its tie branches or raises, see the open findings).  There the selector returns exactly
+    the winners of the definition: seat by seat the candidate with the strictly greatest weighted score sum
+    `Σ grade · weight`, one quota of its strongest supporters spent (grade groups from the top, the last one scaled),
+    its grades then removed from the ballots. -/
+theorem allocated_eq_spec (quota : Rat → Nat → Rat) (votes : SProfile) (n : Nat) (hwf : ScoreProfileWF votes)
+    (hq : 0 ≤ quota (((totalVotes votes : Int)) : Rat) n) (ws : List Cand) (h : allocSpec quota votes n = some ws) :
+    allocatedSelector quota votes n = .ok (ws.map Key.cand) := by
+  unfold allocSpec at h
+  unfold allocatedSelector
+  obtain ⟨h1, h2, h3⟩ := hwf
+  have hWFW : WFW (votes.map (fun bn => (bn.1, ((bn.2 : Int) : Rat)))) := by
+    refine ⟨by rw [List.map_map]; exact h1, ?_⟩
+    intro bw hbw
+    obtain ⟨bn, hbn, rfl⟩ := List.mem_map.mp hbw
+    show (0 : Rat) < ((bn.2 : Int) : Rat)
+    exact_mod_cast h2 bn hbn
+  have hB : BallotsWF (votes.map (fun bn => (bn.1, ((bn.2 : Int) : Rat)))) := by
+    intro bw hbw
+    obtain ⟨bn, hbn, rfl⟩ := List.mem_map.mp hbw
+    exact h3 bn hbn
+  have key := allocLoop_eq_spec _ hq n n _ [] ws (le_refl n) hWFW hB (by simp) h
+  simp only [electedOfList, List.map_nil] at key
+  simp only [bind, Except.bind, key, pure, Except.pure]
+  congr 1
+  have flat : ∀ l : List Cand, (l.map (fun c => (Key.cand c, 1))).flatMap (fun p => List.replicate p.2 p.1)
+      = l.map Key.cand := by
+    intro l
+    induction l with
+    | nil => rfl
+    | cons w rest ih => simp [List.flatMap_cons, ih]
+  exact flat ws
+
+/-- non-vacuity: a three-seat run inside the domain, and the witnesses of the crashes lie outside it -/
+example : allocSpec Gen.Quota.hare [([(0, 5), (1, 2), (2, 1)], 2), ([(0, 1), (1, 3), (2, 0)], 2)] 3 = some [0, 1, 2] := by
+  decide +kernel
+example : allocSpec Gen.Quota.hare [([(0, 5)], 2), ([(1, 3)], 1)] 2 = none := by decide +kernel
+example : ScoreProfileWF [([(0, 5), (1, 2), (2, 1)], 2), ([(0, 1), (1, 3), (2, 0)], 2)] := by
+  refine ⟨by decide +kernel, ?_, ?_⟩ <;> intro bn hbn <;> simp at hbn <;> rcases hbn with rfl | rfl <;> decide +kernel
 
 /-- fix 4ae6629: three candidates level for two seats — the tie is listed once per seat it contests -/
 theorem allocated_tie_places_fixed :
